@@ -67,4 +67,202 @@ theorem roundtrip_eq (d : Nat) (RI : Nat → Nat) (k m i j t : Nat) (hk : k < 3)
       decide_true, decide_false] at hX ⊢
     all_goals (try split)
     all_goals omega
+/-! ## rings: first number, length, rank in the ring -/
+
+/-- first RING number of ring `t` (`t = 0 … 4·ns − 2`; `ringStart ns (4·ns − 1) = 12·ns²`) -/
+def ringStart (ns t : Nat) : Nat :=
+  if t < ns then tri4 t
+  else if t + 1 < 3 * ns then 2 * (ns * ns) + 2 * ns + 4 * ((t - ns) * ns)
+  else 12 * (ns * ns) - tri4 (4 * ns - 1 - t)
+
+/-- number of cells of ring `t` -/
+def ringLen (ns t : Nat) : Nat :=
+  if t < ns then 4 * (t + 1) else if t + 1 < 3 * ns then 4 * ns else 4 * (4 * ns - 1 - t)
+
+/-- rank of a cell inside its ring -/
+def inRing (ns : Nat) (p : HashParts) : Nat :=
+  let t := ringOf ns p
+  if t < ns then (ns - 1 - p.j) + (t + 1) * (p.d0h % 4)
+  else if t + 1 < 3 * ns then xNat ns p / 2
+  else p.i + (p.i + p.j + 1) * (p.d0h % 4)
+
+theorem ringStart_succ (ns t : Nat) (hns : 0 < ns) (ht : t + 1 < 4 * ns) :
+    ringStart ns (t + 1) = ringStart ns t + ringLen ns t := by
+  unfold ringStart ringLen
+  have h3 := Nat.le_mul_self ns
+  by_cases c1 : t + 1 < ns
+  · rw [if_pos c1, if_pos (by omega), if_pos (by omega), tri4_succ]
+  by_cases c2 : t + 1 = ns
+  · subst c2
+    rw [if_neg (by omega), if_pos (by omega), if_pos (by omega), if_pos (by omega), Nat.sub_self, Nat.zero_mul,
+      ← tri4_succ, tri4_eq (t + 1)]
+    omega
+  by_cases c3 : t + 2 < 3 * ns
+  · rw [if_neg (by omega), if_pos (by omega), if_neg (by omega), if_pos (by omega), if_neg (by omega),
+      if_pos (by omega)]
+    have : t + 1 - ns = (t - ns) + 1 := by omega
+    rw [this, Nat.add_mul]; omega
+  by_cases c4 : t + 2 = 3 * ns
+  · rw [if_neg (by omega), if_neg (by omega), if_neg (by omega), if_pos (by omega), if_neg (by omega),
+      if_pos (by omega)]
+    have e1 : 4 * ns - 1 - (t + 1) = ns := by omega
+    have e2 : t - ns = 2 * ns - 2 := by omega
+    rw [e1, e2, tri4_eq, Nat.sub_mul]
+    have : 2 * ns ≤ 2 * ns * ns := by rw [Nat.mul_assoc]; omega
+    have : 2 * ns * ns = 2 * (ns * ns) := by rw [Nat.mul_assoc]
+    omega
+  · rw [if_neg (by omega), if_neg (by omega), if_neg (by omega), if_neg (by omega), if_neg (by omega),
+      if_neg (by omega)]
+    have e1 : 4 * ns - 1 - t = (4 * ns - 1 - (t + 1)) + 1 := by omega
+    rw [e1, tri4_succ]
+    have : tri4 (4 * ns - 1 - (t + 1) + 1) ≤ tri4 ns := tri4_mono (by omega)
+    rw [tri4_succ, tri4_eq ns] at this
+    omega
+theorem ringStart_mono (ns : Nat) (hns : 0 < ns) {t t' : Nat} (h : t ≤ t') (ht' : t' < 4 * ns) :
+    ringStart ns t ≤ ringStart ns t' := by
+  induction t' with
+  | zero => have : t = 0 := by omega
+            subst this; exact Nat.le_refl _
+  | succ n ih =>
+    by_cases c : t = n + 1
+    · subst c; exact Nat.le_refl _
+    · have := ih (by omega) (by omega)
+      rw [ringStart_succ ns n hns (by omega)]; omega
+
+theorem ringStart_next (ns : Nat) (hns : 0 < ns) {t t' : Nat} (h : t < t') (ht' : t' < 4 * ns) :
+    ringStart ns t + ringLen ns t ≤ ringStart ns t' := by
+  rw [← ringStart_succ ns t hns (by omega)]
+  exact ringStart_mono ns hns (by omega) ht'
+
+theorem ringStart_last (ns : Nat) (hns : 0 < ns) : ringStart ns (4 * ns - 1) = 12 * (ns * ns) := by
+  unfold ringStart
+  rw [if_neg (by omega), if_neg (by omega), Nat.sub_self]
+  rfl
+
+theorem ringOf_mk (ns k m i j : Nat) (hm : m < 4) :
+    ringOf ns ⟨4 * k + m, i, j⟩ = (k + 2) * ns - (i + j + 2) := by
+  unfold ringOf; dsimp only
+  have h2 : (4 * k + m) / 4 = k := by omega
+  rw [h2]
+
+/-- **`to_ring` on valid parts**: the RING number is `ringStart t + inRing`, with `t = ringOf` the ring and
+    `inRing` the rank in the ring -/
+theorem toRing_spec_mk (d k m i j : Nat) (hk : k < 3) (hm : m < 4) (hi : i < nside d) (hj : j < nside d) :
+    toRingParts d ⟨4 * k + m, i, j⟩ =
+      some (ringStart (nside d) (ringOf (nside d) ⟨4 * k + m, i, j⟩) + inRing (nside d) ⟨4 * k + m, i, j⟩) ∧
+    inRing (nside d) ⟨4 * k + m, i, j⟩ < ringLen (nside d) (ringOf (nside d) ⟨4 * k + m, i, j⟩) ∧
+    ringOf (nside d) ⟨4 * k + m, i, j⟩ + 1 < 4 * nside d := by
+  have hns := nside_pos d
+  have h1 : (4 * k + m) % 4 = m := by omega
+  have hk' : k = 0 ∨ k = 1 ∨ k = 2 := by omega
+  have hm' : m = 0 ∨ m = 1 ∨ m = 2 ∨ m = 3 := by omega
+  have hr := ringOf_mk (nside d) k m i j hm
+  unfold inRing ringStart ringLen
+  dsimp only
+  rw [hr, h1]
+  by_cases cN : k = 0 ∧ nside d ≤ i + j + 1
+  · obtain ⟨rfl, hh⟩ := cN
+    have hlt : (0 + 2) * nside d - (i + j + 2) < nside d := by omega
+    rw [if_pos hlt, if_pos hlt, if_pos hlt]
+    have := toRing_north d m i j hm hi hj hh
+    simp only [Nat.mul_zero, Nat.zero_add] at this ⊢
+    rw [this]
+    have e1 : 2 * nside d - 2 - (i + j) = 2 * nside d - (i + j + 2) := by omega
+    have e2 : 2 * nside d - 1 - (i + j) = 2 * nside d - (i + j + 2) + 1 := by omega
+    rw [e1, e2]
+    refine ⟨by rw [Nat.add_assoc], ?_, by omega⟩
+    rcases hm' with rfl | rfl | rfl | rfl <;> omega
+  by_cases cS : k = 2 ∧ i + j + 1 ≤ nside d
+  · obtain ⟨rfl, hh⟩ := cS
+    rw [if_neg (by omega), if_neg (by omega), if_neg (by omega), if_neg (by omega), if_neg (by omega),
+      if_neg (by omega)]
+    obtain ⟨h5, h6⟩ := toRing_south d m i j hm hh
+    have : 4 * 2 + m = 8 + m := by omega
+    rw [this, h5, nHash_eq]
+    have e1 : 4 * nside d - 1 - ((2 + 2) * nside d - (i + j + 2)) = i + j + 1 := by omega
+    rw [e1]
+    refine ⟨by rw [Nat.add_assoc], ?_, by omega⟩
+    rcases hm' with rfl | rfl | rfl | rfl <;> omega
+  · have hle : (k + 2) * nside d ≥ i + j + 2 := by rcases hk' with rfl | rfl | rfl <;> omega
+    obtain ⟨t, ht⟩ : ∃ t, t + (i + j + 2) = (k + 2) * nside d := ⟨(k + 2) * nside d - (i + j + 2), by omega⟩
+    have e : (k + 2) * nside d - (i + j + 2) = t := by omega
+    rw [e]
+    have g1 : nside d ≤ t := by rcases hk' with rfl | rfl | rfl <;> omega
+    have g2 : t + 2 ≤ 3 * nside d := by rcases hk' with rfl | rfl | rfl <;> omega
+    obtain ⟨h5, h6, h7⟩ := toRing_eq d k m i j t hk hm hi hj ht g1 g2
+    rw [if_neg (by omega), if_pos (by omega), if_neg (by omega), if_pos (by omega), if_neg (by omega),
+      if_pos (by omega), h5, fe_eq]
+    refine ⟨by rw [Nat.add_comm], by omega, by omega⟩
+
+/-! ## the specification of `to_ring`, and `from_ring ∘ to_ring = id` -/
+
+theorem valid_mk {d : Nat} {p : HashParts} (hv : Valid d p) :
+    ∃ k m, k < 3 ∧ m < 4 ∧ p = ⟨4 * k + m, p.i, p.j⟩ ∧ p.i < nside d ∧ p.j < nside d := by
+  obtain ⟨h1, h2, h3⟩ := hv
+  refine ⟨p.d0h / 4, p.d0h % 4, by omega, by omega, ?_, by rwa [nside_eq], by rwa [nside_eq]⟩
+  cases p; simp only [HashParts.mk.injEq, and_self, and_true]; omega
+
+theorem toRing_spec (d : Nat) (p : HashParts) (hv : Valid d p) :
+    toRingParts d p = some (ringStart (nside d) (ringOf (nside d) p) + inRing (nside d) p) ∧
+    inRing (nside d) p < ringLen (nside d) (ringOf (nside d) p) ∧ ringOf (nside d) p + 1 < 4 * nside d := by
+  obtain ⟨k, m, hk, hm, e, hi, hj⟩ := valid_mk hv
+  rw [e]; exact toRing_spec_mk d k m p.i p.j hk hm hi hj
+
+/-- **(1)** `to_ring` never underflows on valid parts, and its result is a RING number of the depth -/
+theorem toRingParts_lt (d : Nat) (p : HashParts) (hv : Valid d p) :
+    ∃ r, toRingParts d p = some r ∧ r < 12 * 4 ^ d := by
+  obtain ⟨h1, h2, h3⟩ := toRing_spec d p hv
+  refine ⟨_, h1, ?_⟩
+  have hns := nside_pos d
+  have := ringStart_next (nside d) hns (t := ringOf (nside d) p) (t' := 4 * nside d - 1) (by omega) (by omega)
+  rw [ringStart_last _ hns] at this
+  rw [four_pow_eq]; omega
+
+theorem fromRing_spec_mk (d : Nat) (RI : Nat → Nat) (hRI : ExactRI RI) (hd : d ≤ 32) (k m i j : Nat) (hk : k < 3)
+    (hm : m < 4) (hi : i < nside d) (hj : j < nside d) :
+    fromRingParts d RI
+      (ringStart (nside d) (ringOf (nside d) ⟨4 * k + m, i, j⟩) + inRing (nside d) ⟨4 * k + m, i, j⟩)
+      = some ⟨4 * k + m, i, j⟩ := by
+  have hns := nside_pos d
+  have hd' : nside d ≤ 2 ^ 32 := by rw [nside_eq]; exact Nat.pow_le_pow_right (by decide) hd
+  have h1 : (4 * k + m) % 4 = m := by omega
+  have hk' : k = 0 ∨ k = 1 ∨ k = 2 := by omega
+  have hr := ringOf_mk (nside d) k m i j hm
+  unfold inRing ringStart
+  dsimp only
+  rw [hr, h1]
+  by_cases cN : k = 0 ∧ nside d ≤ i + j + 1
+  · obtain ⟨rfl, hh⟩ := cN
+    have hlt : (0 + 2) * nside d - (i + j + 2) < nside d := by omega
+    rw [if_pos hlt, if_pos hlt]
+    have := fromRing_north d RI hRI ((0 + 2) * nside d - (i + j + 2)) (nside d - 1 - j) m hd' hlt (by omega) hm
+    rw [← Nat.add_assoc, this]
+    simp only [Nat.mul_zero, Nat.zero_add, Option.some.injEq, HashParts.mk.injEq, true_and]
+    omega
+  by_cases cS : k = 2 ∧ i + j + 1 ≤ nside d
+  · obtain ⟨rfl, hh⟩ := cS
+    rw [if_neg (by omega), if_neg (by omega), if_neg (by omega), if_neg (by omega)]
+    have := fromRing_south d RI hRI (i + j) i m hd' (by omega) (by omega) hm
+    have e1 : 4 * nside d - 1 - ((2 + 2) * nside d - (i + j + 2)) = i + j + 1 := by omega
+    rw [e1, ← nHash_eq, ← Nat.add_assoc, this]
+    rw [Nat.add_sub_cancel_left]
+  · obtain ⟨t, ht⟩ : ∃ t, t + (i + j + 2) = (k + 2) * nside d :=
+      ⟨(k + 2) * nside d - (i + j + 2), by rcases hk' with rfl | rfl | rfl <;> omega⟩
+    have e : (k + 2) * nside d - (i + j + 2) = t := by omega
+    rw [e]
+    have g1 : nside d ≤ t := by rcases hk' with rfl | rfl | rfl <;> omega
+    have g2 : t + 2 ≤ 3 * nside d := by rcases hk' with rfl | rfl | rfl <;> omega
+    rw [if_neg (by omega), if_pos (by omega), if_neg (by omega), if_pos (by omega), ← fe_eq, Nat.add_comm]
+    exact roundtrip_eq d RI k m i j t hk hm hi hj ht g1 g2
+
+/-- **(2)** `from_ring ∘ to_ring = id` on valid parts, depth `≤ 32` (beyond, `from_ring` truncates `i`, `j` to `u32`) -/
+theorem fromRing_toRing_parts (d : Nat) (RI : Nat → Nat) (hRI : ExactRI RI) (hd : d ≤ 32) (p : HashParts)
+    (hv : Valid d p) (r : Nat) (hr : toRingParts d p = some r) : fromRingParts d RI r = some p := by
+  obtain ⟨k, m, hk, hm, e, hi, hj⟩ := valid_mk hv
+  have h1 := (toRing_spec d p hv).1
+  rw [hr] at h1
+  cases h1
+  rw [e]
+  exact fromRing_spec_mk d RI hRI hd k m p.i p.j hk hm hi hj
+
 end Hpx.RingBij
